@@ -373,6 +373,24 @@ def finishParse (fields : List TagValue) (c : PCore) : Res (List TagValue × PCo
   | .err e => .err e
   | .fault w => .fault w
 
+/-- the loop finds no field left at `idx`.  In `doParsing` (after the fix of D2) that is the error "message ends without CheckSum"; the
+    unchanged code indexed past the array.  In `parseGroup` the fixed code does `Body.add(dm); return`, and back in `doParsing` the
+    statements after the `switch` look at the field parsed LAST (`mp.parsedFieldBytes`): CheckSum ends the loop normally (possible only
+    when the dictionary lists 10 inside a repeating group), anything else goes round to the bound check. -/
+def outOfFields (fx : Fixes) (mode : Mode) (fields : List TagValue) (idx : Nat) (c : PCore) : Res (List TagValue × PCore) :=
+  if fx.d2 then
+    match mode with
+    | .main => .err "message ends without CheckSum"
+    | .grp dmStart _ _ =>
+      (match addDm fields dmStart idx c with
+       | .ok c1 =>
+         (match fields[idx - 1]? with
+          | some last => if last.tag = 10 then finishParse fields c1 else .err "message ends without CheckSum"
+          | Option.none => .err "message ends without CheckSum")
+       | .err e => .err e
+       | .fault w => .fault w)
+  else .fault "index out of range (fields[fieldIndex])"
+
 /-- the loop(s) of `doParsing` / `parseGroup` from field index `idx` on -/
 def parseLoop (fx : Fixes) (d : Dicts) (mode : Mode) (fields : List TagValue) (idx : Nat) (c : PCore) :
     Res (List TagValue × PCore) :=
@@ -411,8 +429,7 @@ def parseLoop (fx : Fixes) (d : Dicts) (mode : Mode) (fields : List TagValue) (i
            | .fault w => .fault w)
         | .err e => .err e
         | .fault w => .fault w
-  else
-    if fx.d2 then .err "message ends without CheckSum" else .fault "index out of range (fields[fieldIndex])"
+  else outOfFields fx mode fields idx c
 termination_by fields.length - idx
 decreasing_by all_goals (simp only [List.length_set]; omega)
 
